@@ -167,7 +167,17 @@ def run_path(I, fn, decisions, time_limit):
         except Exception as e2: res['monitor_feasible'] = 'unknown'
     except Unsupported as ex: res['status'] = 'unsupported'; res['msg'] = str(ex); res['stack'] = list(I.stack[-8:])
     except R.Unsupported as ex: res['status'] = 'unsupported'; res['msg'] = str(ex); res['stack'] = list(I.stack[-8:])
-    except BoundExceeded as ex: res['status'] = 'bound'; res['msg'] = str(ex); res['stack'] = list(I.stack[-8:])
+    except BoundExceeded as ex:
+        res['status'] = 'bound'; res['msg'] = str(ex); res['stack'] = list(I.stack[-8:])
+        if I.ext.get('bound_is_hang'):
+            # the instruction budget of this harness is far above what any terminating path needs: candidate hang,
+            # to be confirmed by the native replay running into its time limit
+            try:
+                signal.alarm(60)
+                r, md, dt = query(I, z3.BoolVal(True), 'hang', timeout=30000)
+                res['monitor_model'] = md; res['monitor_feasible'] = r; res['status'] = 'monitor'; res['monitor_kind'] = 'hang'
+                res['msg'] = 'hang: ' + str(ex)
+            except Exception: pass
     except z3.Z3Exception as ex: res['status'] = 'unsupported'; res['msg'] = 'z3: ' + str(ex)[:300]; res['stack'] = list(I.stack[-8:])
     except RecursionError: res['status'] = 'bound'; res['msg'] = 'python recursion limit'
     except Exception as ex:
